@@ -320,6 +320,9 @@ func (f *frame) contractCall(callee *ssa.Function, ct *Contract, c *ssa.CallComm
 	delta := vc.newState(stGhostDelta, f.st)
 	delta.mods = described
 	for cw := range described {
+		if vc.watch[cw] {
+			vc.watchHit[cw] = true
+		}
 		dn := delta.get("G$ncalls$"+cw, SBV64)
 		dc := delta.get("G$called$"+cw, SBool)
 		vc.assume(mkAnd(sle(i64(0), dn), sle(dn, bvLit(64, 1<<32)), mkEq(dc, slt(i64(0), dn))))
